@@ -50,6 +50,7 @@ FEATURES = {
     "init.array_designator_identifier": "F26",  # C08
     "stmt.pragma_before_substatement": "F27a",  # C08
     "ext.implicit_int": "-",  # not C99: excluded from C01 only
+    "lit.u8_char_constant": "-",  # C2x, accepted by pycparser as an extension: excluded from C01 only
 }
 ALL_FEATURES = list(FEATURES)
 
@@ -110,6 +111,8 @@ def gen_leaf(g):
         return ("const", v, t)
     if k == "char":
         v, t = c.choice(CHAR_CONSTS)
+        if v.startswith("u8'") and not g.on("lit.u8_char_constant"):
+            v = "u" + v[2:]  # u8 character constants are C2x, not C11
         return ("const", v, t)
     return gen_string(g)
 
@@ -704,6 +707,11 @@ def gen_fdef(g):
         # a definition's parameters should be named; unnamed ones are a
         # constraint violation, not a syntax error - keep them rare
         ret = gen_deriv(g, c.int(0, 2), True, "fdef")
+        if ret and ret[0][0] != "ptr":
+            # a definition whose declarator makes the function return an array or a
+            # function is derivable from Annex A but violates 6.9.1p2 / 6.7.5.3p1 and
+            # gcc's parser refuses the body: keep the returned type a pointer
+            ret.insert(0, ("ptr", []))
         d = ("d", name, [("fn", ps)] + ret, None, None, None)
         g.push()
         body = gen_block(g, c.int(1, 3))
